@@ -178,9 +178,6 @@ var hcSlimOps = []int{opDirect, opUses, opAugment, opAugment2}
 func hcGenerate(n int) *hcSchema {
 	sc := &hcSchema{}
 	hcB2Prefix = "b2"
-	if !hcSlim && symChoice(2) == 1 {
-		hcB2Prefix = "m"
-	}
 	if hcSlim {
 		sc.top = symChoice(2)
 	} else {
@@ -252,6 +249,15 @@ func hcGenerate(n int) *hcSchema {
 		nsOf = append(append([]string{}, nsOf...), ctx)
 		lv.steps, lv.nsOf = steps, nsOf
 		sc.levels = append(sc.levels, lv)
+	}
+	// module b2's own prefix matters only when b2 writes an augment
+	for _, lv := range sc.levels {
+		if lv.op == opAugment2 && hcB2Prefix == "b2" && !hcSlim {
+			if symChoice(2) == 1 {
+				hcB2Prefix = "m"
+			}
+			break
+		}
 	}
 	body := sc.gen(0, false)
 	switch sc.top {
